@@ -1966,6 +1966,7 @@ func (vm *VM) execAsync() error {
 	for k, v := range vm.builtins {
 		builtinsCopy[k] = v
 	}
+	maxSteps := vm.maxSteps
 
 	go func() {
 		defer close(future.Done)
@@ -1981,6 +1982,10 @@ func (vm *VM) execAsync() error {
 		asyncVM.locals = localsCopy
 		asyncVM.globals = globalsCopy
 		asyncVM.builtins = builtinsCopy
+		// The block counts against the same limit as its parent: left
+		// unlimited, `while true {}` in a block spun forever and every
+		// await of it blocked its request for good.
+		asyncVM.maxSteps = maxSteps
 
 		// Execute the async body using raw instructions (no GLYP header)
 		result, execErr := asyncVM.executeRaw(asyncBody)
